@@ -21,7 +21,9 @@ fn oracle(run: &Run) -> Vec<String> {
             })
             .collect()
     };
-    for who in ["B", "X"] {
+    // (in the monitors build of the harness B monitors A)
+    let strangers: &[&str] = if ALT && run.spawn_err.is_none() { &["X"] } else { &["B", "X"] };
+    for who in strangers.iter().copied() {
         let ev = sup_events(who);
         if !ev.is_empty() {
             bad.push(format!("{who} neither supervises nor monitors anyone but received {ev:?}"));
@@ -50,6 +52,30 @@ fn oracle(run: &Run) -> Vec<String> {
     // (a task we cancel ourselves reports the cancellation through its join handle, as tokio does)
     if run.join_ok != Some(true) && !matches!(sc.closer, Closer::Abort(_)) {
         bad.push(format!("the join handle of A did not complete normally: {:?} {:?}", run.join_ok, run.outer_join));
+    }
+    if ALT {
+        let id = run.a_id.clone().unwrap_or_default();
+        let b_ev = sup_events("B");
+        let b_term: Vec<&String> = b_ev.iter().filter(|s| !s.starts_with("Started")).collect();
+        if b_term.len() != 1 {
+            bad.push(format!("B monitors A and must see exactly one terminal event, it saw {b_ev:?}"));
+        } else {
+            if !b_term[0].contains(&format!("({id},")) {
+                bad.push(format!("the monitor's terminal event names another actor: {} (A is {id})", b_term[0]));
+            }
+            if b_term[0].contains("state=true") {
+                bad.push(format!("a monitor received the actor's state: {}", b_term[0]));
+            }
+            if sc.has_sup() {
+                let s_term: Vec<String> = s_ev.iter().filter(|s| !s.starts_with("Started")).map(|s| s.replace("state=true", "state=false")).collect();
+                if s_term.len() == 1 && s_term[0] != *b_term[0] {
+                    bad.push(format!("supervisor and monitor were told different things: {} vs {}", s_term[0], b_term[0]));
+                }
+            }
+        }
+        if b_ev.iter().filter(|s| s.starts_with("Started")).count() > 1 || b_ev.iter().skip(1).any(|s| s.starts_with("Started")) {
+            bad.push(format!("monitor saw ActorStarted twice or after the terminal event: {b_ev:?}"));
+        }
     }
     if !sc.has_sup() {
         if !s_ev.is_empty() {
@@ -177,6 +203,11 @@ pub fn plan(tier: &str) -> Plan {
         let bound = if thorough { 2 } else { 1 };
         units.push(Unit::explore(Job::new(format!("c04/{}", sc.name()), cfg.clone(), Some(bound), body(sc, oracle))));
     }
+    // the grid once more on the async-trait + monitors (+ cluster) build of the harness; there the
+    // bystander monitors A and must be told the same, without the state
+    for sc in scenarios(false) {
+        units.push(alt_unit(format!("alt/c04/{}", sc.name()), cfg.clone(), Some(1), body(sc, oracle), 1));
+    }
     // crash-point enumeration: drop A's task before its k-th poll, for every k up to the number
     // of polls of the default schedule (measured here by one probing execution)
     for (kind, prog) in [(Kind::Send, P::Awaits), (Kind::Send, P::SleepsMs)] {
@@ -197,8 +228,9 @@ pub fn plan(tier: &str) -> Plan {
         rule: "scenario grid (failure site x Err|panic x exit cause x actor kind x supervisor busy|idle) plus crash-point enumeration (the actor task is dropped before its k-th poll, every k of the default schedule), each explored by a deviation-bounded DFS over task-level schedules of the real code; oracle: the supervisor's event log holds [Started?] + exactly one correctly classified terminal event, bystander and stranger are undisturbed, the join handle completes; non-trivial = execution with >= 1 branching decision".into(),
         assumptions: vec![
             "task granularity".into(),
+            "the monitor API only exists with ractor's monitors feature: the alt/ units run on a second build of the harness (features async-trait, monitors, cluster)".into(),
             "thread-local actors never hand their state to the supervisor (documented design), so state presence is only demanded of Send actors".into(),
         ],
-        engine: "vsched (shuttle coroutines + deviation-bounded DFS + task cut injection) on the real ractor code",
+        engine: "vsched (shuttle coroutines + deviation-bounded DFS + task cut injection) on the real ractor code, builds: default and async-trait + monitors",
     }
 }
